@@ -14,6 +14,7 @@ CHECKS = {
                 tables=[("VERIF_TABLE_SCOPE", "c12scope", "scope"), ("VERIF_TABLE_AUD", "c12aud", "aud"), ("VERIF_TABLE_FLOW", "c12flow", "flow")],
                 cap={Q: 20000, T: 10**7}),
     "C07L": dict(spec="TblLifespan", consts={Q: {}, T: {}}, tables=[("VERIF_TABLE_LIFE", "c07life", "life")], cap={Q: 400, T: 10**7}),
+    "C10": dict(spec="TblClientAuth", consts={Q: {}, T: {}}, tables=[("VERIF_TABLE_CLIENTAUTH", "c10", "clientauth")], cap={Q: 10**7, T: 10**7}),
     "C11": dict(spec="TblRedirect", consts={Q: {"Depth": 1}, T: {"Depth": 2}},
                 tables=[("VERIF_TABLE_REDIRECT", "c11", "redirect")], cap={Q: 20000, T: 10**7}),
 }
@@ -73,7 +74,17 @@ def corrupt_c07(rows, rnd):
     return out
 
 
-CORRUPT = {"c11": corrupt_c11, "c07life": corrupt_c07}
+def corrupt_c10(rows, rnd):
+    out = []
+    cand = [r for r in rows if r["outcome"] == "ok"]
+    for r in rnd.sample(cand, min(3, len(cand))):
+        r = dict(r)
+        r["outcome"], r["auth"] = "invalid_client", "invalid_client"
+        out.append(r)
+    return out
+
+
+CORRUPT = {"c11": corrupt_c11, "c07life": corrupt_c07, "c10": corrupt_c10}
 ATTACHED = {"C07": "C07L"}      # decision tables that are part of a stateful check
 
 
